@@ -85,6 +85,9 @@ struct Trace {
     return_codes: Vec<i64>,
     state_after: Vec<Vec<u64>>,
     state_pos_after: Vec<usize>,
+    /// VM only: (cursor, size, kind) of every state-storage access of the step (kind 0 read, 1 write, 2 ring)
+    #[serde(skip_serializing_if = "Option::is_none")]
+    state_accesses: Option<Vec<Vec<(usize, usize, u8)>>>,
     closures_len: Vec<usize>,
     heap_len: Vec<usize>,
     #[serde(skip_serializing_if = "Option::is_none")]
@@ -207,6 +210,7 @@ fn run_vm(spec: &Spec, trace: &Shared) {
         let io = rd.io_channels();
         let (n_in, n_out) = io.map_or((0, 0), |io| (io.input as usize, io.output as usize));
         let input = inputs_for(spec, k, n_in);
+        let _ = mimium_lang::runtime::vm::verif_take_state_accesses();
         let rc = match guarded(|| {
             if !input.is_empty() {
                 rd.set_input(&input);
@@ -214,8 +218,16 @@ fn run_vm(spec: &Spec, trace: &Shared) {
             rd.run_dsp(Time(now))
         }) {
             Ok(rc) => rc,
-            Err(p) => return with(trace, |t| t.panic = Some(format!("dsp step {k}: {p}"))),
+            Err(p) => {
+                let acc = mimium_lang::runtime::vm::verif_take_state_accesses();
+                return with(trace, |t| {
+                    t.state_accesses.get_or_insert_with(Vec::new).push(acc);
+                    t.panic = Some(format!("dsp step {k}: {p}"))
+                });
+            }
         };
+        let acc = mimium_lang::runtime::vm::verif_take_state_accesses();
+        with(trace, |t| t.state_accesses.get_or_insert_with(Vec::new).push(acc));
         let out: Vec<u64> = rd.get_output(n_out).iter().map(|v| v.to_bits()).collect();
         let vm = vm_of(&mut rd);
         let state = vm.verif_state_words().to_vec();
